@@ -90,6 +90,7 @@ func buildCatalogue() (grammar *catalogue, extra *catalogue, ar *arities) {
 	// every combinator over deliberately coarse / fine component instances at the element types
 	// the library special-cases (custom.go)
 	registerCustom(grammar)
+	registerWindows(grammar)
 
 	// instances outside the closure
 	extra.add(hn.n)
